@@ -26,4 +26,11 @@ theorem C10_calls_generated (D : Desc) (s : St) (f : Fsm) :
     startFormatTest D s f = Gen.start_processing_format_test_args D s f :=
   ⟨endOk_generated D s f, endError_generated D s f, startFormatRead_generated D s f, startFormatTest_generated D s f⟩
 
+/-- the counters this property's theorems keep as unbounded natural numbers (`position`, `position`) are declared
+`size_t` in `cat.h` — 64 bits on the target, so they cannot wrap on any buffer, table or line that exists; the widths
+are read from the struct declarations on every run (translator item T21) -/
+theorem C10_counters_unbounded :
+    Gen.width_obj_position = 64 ∧
+    Gen.width_uns_position = 64 := by decide
+
 end Cat
